@@ -4,7 +4,7 @@ from vlib.driver import Cond
 from vlib.common import Violation, BudgetExceeded, require, fail
 from vlib.oracles import dump, StepBudget
 from vlib.ctx import make_ctx_s, clear_parser_cache
-from vlib.parsefam import skel_pre, skel_fill, BS
+from vlib.parsefam import skel_pre, skel_fill, BS, limit_holes
 from pylatexenc.latexwalker import LatexWalker, LatexWalkerParseError, LatexWalkerEndOfStream
 from pylatexenc.latexnodes import LatexTokenReader, ParsingState
 from pylatexenc.latexnodes import parsers as P
@@ -337,6 +337,18 @@ def conditions(tier):
                           'body_spellings(s, %r, %r, %r)' % (a, which, quick), timeout=T, twin=False, cost=2,
                           smoke=[dict(s=BS + 'n' + t) for t in ('*[a', '{a}', '[a]', 'a a', '{}{', '* {', '**', '*{')],
                           descr='argument string %r through the legacy and new spellings; document \\n + 2-3 characters over %r' % (a, alpha)))
+    if quick:
+        # skeleton conditions: start position 0 or 1 only, first hole free (others pinned)
+        for c in conds:
+            if c.name.endswith('_skel') or c.name.startswith('expr_') and not c.name.startswith('expr_le') or c.name.startswith('env_'):
+                c.pre = [p for p in c.pre if p != '0 <= pos <= len(s)'] + ['0 <= pos <= 1']
+                seen = 0
+                newpre = []
+                L = int(c.pre[0].split('==')[1])
+                pinned = set(int(p.split('[')[1].split(']')[0]) for p in c.pre if p.startswith('s['))
+                free = [k for k in range(L) if k not in pinned]
+                for k in free[1:]:
+                    c.pre.append('s[%d] == chr(120)' % k)
     for i, (a, sk) in enumerate([('{*{', BS + 'n{a}?*{b}?'), ('{*', BS + 'n{a}?*?'), ('[*{', BS + 'n[a]?*{b}'), ('*[{', BS + 'n?*?[a]{b}'),
                                  ('{[', BS + 'n{a}?[b]?'), ('[{', BS + 'n?[a]?{b}'), ('{{', BS + 'n?a?b')]):
         conds.append(Cond('spellskel_%d' % i, 's: str', skel_pre(sk), "body_spellings(s, %r, 'macro')" % a, timeout=T, twin=False, cost=2,
